@@ -112,6 +112,14 @@ def histories(draw):
     )
     if star:
         opts = ["optimal", "optimal-outer"] + opts[:1]
+    # themed histories: combinations that are rare under independent draws
+    # (an expression over a SLICED tree re-used with per-call options; one
+    # caching optimizer object asked about near-identical contractions)
+    theme = draw(st.sampled_from([None] * 6 + ["sliced_expr", "reusable_obj"]))
+    if theme == "sliced_expr" and not star:
+        opts = ["tree_sliced", draw(st.sampled_from(["tree_plain", "greedy", "tree_sliced"]))]
+    elif theme == "reusable_obj" and not star:
+        opts = [draw(st.sampled_from(["reusable_hyper", "reusable_rg"]))] + opts[:1]
     kwsets = draw(
         st.lists(
             st.fixed_dictionaries(
@@ -141,6 +149,10 @@ def histories(draw):
     # or without canonicalisation - the library documents arbitrary hashable
     # labels for the array_contract family
     labmode = draw(st.sampled_from(["str", "str", "int_nocanon", "int_canon", "str_nocanon"]))
+    if theme == "sliced_expr" and not star:
+        labmode = "str"
+        pref = ["expression_reuse", "expression_reuse", "expression", "einsum", "array_contract", "einsum_expression"]
+        raw = [(pref[(aseed + j) % len(pref)] if j % 3 else fn, vi, oi, ki, aseed) for j, (fn, vi, oi, ki, aseed) in enumerate(raw)]
     calls = []
     for fn, vi, oi, ki, aseed in raw:
         kind, vk = variants[vi % len(variants)]
